@@ -4,7 +4,7 @@
    (tied to Python's calendar by the correspondence). *)
 From Coq Require Import ZArith List.
 From NV Require Import Common.Py Common.Trans Spec.TimeSpec Gen.BintimeGen Model.Calendar Model.Convert
-  Model.DateTimeFields Proofs.CalendarProofs Proofs.C14Proofs.
+  Model.DateTimeFields Proofs.CalendarProofs Proofs.C14Proofs Model.Text Proofs.C14Text Proofs.C14TextFields.
 Open Scope Z_scope.
 
 (* the calendar model is a bijection between day numbers and valid proleptic Gregorian dates, for
@@ -37,6 +37,24 @@ Theorem C14_timedelta_str : forall t,
   2 * Z.abs (((((d * 24 + h) * 60 + m) * 60 + s) * AS + f) * T64 - AS * t) <= T64.
 Proof. exact td_str_parts_spec. Qed.
 Print Assumptions C14_timedelta_str.
+
+(* ... and the text str() builds from those parts (Model/Text.v render_td: "[-]D day[s], H:MM:SS[.fraction]" with
+   trailing zeros of the 18-digit fraction stripped; compared character by character with the implementation's
+   str() by the correspondence) identifies them: reading the text back yields exactly these parts *)
+Theorem C14_timedelta_text : forall t, in128 t = true ->
+  let '(d, h, m, s, f) := td_str_parts t in parse_td (render_td d h m s f) = Some (d, h, m, s, f).
+Proof. exact td_text_identifies. Qed.
+Print Assumptions C14_timedelta_text.
+
+(* str(DateTime) ("YYYY-MM-DD HH:MM:SS[.6|15|24 digits]+00:00", Model/Text.v render_dt) shows the same fields:
+   reading it back yields exactly the nine fields, for every DateTime whose year is 0..9999 *)
+Theorem C14_datetime_text : forall t,
+  let '(y, mo, d) := dt_ymd t in
+  0 <= y < 10000 ->
+  parse_dt (render_dt y mo d (dt_hour t) (dt_minute t) (dt_second t) (dt_microsecond t) (dt_femtosecond t) (dt_yoctosecond t))
+  = Some (y, mo, d, dt_hour t, dt_minute t, dt_second t, dt_microsecond t, dt_femtosecond t, dt_yoctosecond t).
+Proof. exact dt_text_identifies. Qed.
+Print Assumptions C14_datetime_text.
 
 (* DateTime: the nine fields identify the instant ticks/2^64 s rounded down to a yoctosecond in the
    proleptic Gregorian UTC calendar counted from 1904-01-01T00:00:00Z *)
